@@ -6,6 +6,8 @@ import RbV.Lemmas.QGramIter
 import RbV.Lemmas.QGramExact
 import RbV.Lemmas.QGramMatches
 import RbV.Lemmas.QGramIndex
+import RbV.Lemmas.QGramExactModel
+import RbV.Lemmas.KChainFwd
 /-!
 # C19 — k-mer / q-gram indexing and sparse chaining are exact
 
@@ -186,6 +188,25 @@ theorem matchesRef_spec (mc q minc : Nat) (pat text : List Nat) (r : MatchRec) :
 example : matchesModel 9 2 1 [3, 1, 2, 3] [1, 2, 3, 1, 2] = [(0, 3, 2, 5, 2), (1, 4, 0, 3, 2)] ∧
     matchesRef 9 2 1 [3, 1, 2, 3] [1, 2, 3, 1, 2] = [(0, 3, 2, 5, 2), (1, 4, 0, 3, 2)] := by decide
 
+/-- **mirror model of `exact_matches`** (one open match per diagonal in a map; a hit with
+`m.pattern.stop - q + 1 != i` pushes the open match of its diagonal and opens a new one; all open matches are pushed at the
+end) reports exactly the records of the reference — for every pattern, text, `q ≥ 1` and `max_count`. -/
+theorem exact_matches_model_refines (mc q : Nat) (pat text : List Nat) (hq : 0 < q) (r : ExactRec) :
+    r ∈ exactMatchesModel mc q pat text ↔ r ∈ exactMatchesRef mc q pat text :=
+  exactMatchesModel_mem_iff mc q pat text hq r
+
+/-- with masking too, the reference reports exactly the maximal runs of consecutive (unmasked) hits along a diagonal -/
+theorem exact_matches_are_runs_of_hits (mc q : Nat) (pat text : List Nat) (hq : 0 < q) (r : ExactRec) :
+    r ∈ exactMatchesRef mc q pat text ↔
+      ∃ a p n, r = (a, a + n + q, p, p + n + q) ∧
+        (∀ j, j ≤ n → (a + j, p + j) ∈ hits mc q pat text) ∧
+        ¬ (0 < a ∧ 0 < p ∧ (a - 1, p - 1) ∈ hits mc q pat text) ∧
+        (a + n + 1, p + n + 1) ∉ hits mc q pat text :=
+  exactMatchesRef_iff_run mc q pat text hq r
+
+example : exactMatchesModel 9 2 [1, 2, 3, 9, 1, 2] [0, 1, 2, 3, 1, 2] = [(0, 3, 1, 4), (0, 2, 4, 6), (4, 6, 1, 3), (4, 6, 4, 6)] := by
+  decide
+
 /-- any text of length `n` masks nothing when `mc ≥ n + 1` -/
 theorem nothing_masked (mc : Nat) (text : List Nat) (h : text.length + 1 ≤ mc) (g : List Nat) :
     (occurrences g text).length ≤ mc := by
@@ -327,6 +348,61 @@ theorem lcskpp_accept_iff (ms : List M) (k : Nat) (hk : 0 < k) (hs : ms.Pairwise
       rw [List.getD_eq_getElem?_getD, List.getElem?_eq_getElem hlt]
       exact List.getElem_mem hlt)
     omega
+
+/-- **the recurrence behind `lcskpp`'s `dp_vector`** (`k` + best finished non-overlapping predecessor, or diagonal
+predecessor + 1): evaluated in list order it gives, for every match, the best score of a valid chain *ending* at that
+match — no chain ending there scores more, and one scores exactly that. -/
+theorem dp_cell_is_best_chain_ending (ms : List M) (k : Nat) (hk : 0 < k) (hs : ms.Pairwise (fun a b => a.1 ≤ b.1))
+    (m : M) (v : Nat) (h : (m, v) ∈ tableR k ms.reverse) :
+    (∀ c, Chain k (c ++ [m]) → (∀ e ∈ c, e ∈ ms) → score k (c ++ [m]) ≤ v) ∧
+    ∃ c, Chain k (c ++ [m]) ∧ (∀ e ∈ c, e ∈ ms) ∧ score k (c ++ [m]) = v := by
+  have hs' : ms.reverse.Pairwise (fun a b => b.1 ≤ a.1) := List.pairwise_reverse.mpr hs
+  constructor
+  · intro c hc hsub
+    have h1 : RChain k (m :: c.reverse) := by
+      rw [rchain_iff]; simpa using hc
+    have := tableR_upper hk ms.reverse hs' m v h c.reverse h1 (fun e he => by simpa using hsub e (by simpa using he))
+    rw [rscore_eq] at this
+    simpa using this
+  · obtain ⟨rc, h1, h2, h3⟩ := tableR_attained hk ms.reverse m v h
+    refine ⟨rc.reverse, ?_, ?_, ?_⟩
+    · rw [rchain_iff] at h1; simpa using h1
+    · intro e he
+      have := h2 e (by simp at he ⊢; right; exact he)
+      simpa using this
+    · rw [rscore_eq] at h3; simpa using h3
+
+/-- … and the best cell (`best_dp`) is the LCSk++ optimum -/
+theorem dpScores_max_eq_opt (ms : List M) (k : Nat) (hk : 0 < k) (hs : ms.Pairwise (fun a b => a.1 ≤ b.1)) :
+    max0 (dpScores ms k) = lcskDP ms k := by
+  apply (lcskDP_eq_opt ms k hk hs _).mp
+  have hmem : ∀ v, v ∈ dpScores ms k ↔ ∃ m, (m, v) ∈ tableR k ms.reverse := by
+    intro v
+    simp only [dpScores, List.mem_reverse, List.mem_map]
+    constructor
+    · rintro ⟨⟨m, v'⟩, hm, rfl⟩; exact ⟨m, hm⟩
+    · rintro ⟨m, hm⟩; exact ⟨(m, v), hm, rfl⟩
+  constructor
+  · intro c hc hsub
+    rcases List.eq_nil_or_concat c with rfl | ⟨c', m, rfl⟩
+    · simp [score]
+    · rw [List.concat_eq_append] at hc hsub ⊢
+      have hm : m ∈ ms.reverse := by simpa using hsub m (by simp)
+      obtain ⟨v, hv⟩ := exists_entryR (k := k) hm
+      have h1 := (dp_cell_is_best_chain_ending ms k hk hs m v hv).1 c' hc (fun e he => hsub e (by simp [he]))
+      have h2 : v ≤ max0 (dpScores ms k) := le_max0_of_mem ((hmem v).mpr ⟨m, hv⟩)
+      omega
+  · rcases max0_zero_or_mem (dpScores ms k) with h0 | hm
+    · exact ⟨[], trivial, by simp, by simp [score, h0]⟩
+    · obtain ⟨m, hmv⟩ := (hmem _).mp hm
+      obtain ⟨c, h1, h2, h3⟩ := (dp_cell_is_best_chain_ending ms k hk hs m _ hmv).2
+      refine ⟨c ++ [m], h1, ?_, h3⟩
+      intro e he
+      rcases List.mem_append.mp he with h' | h'
+      · exact h2 e h'
+      · simp at h'; rw [h']; have := entry_memR hmv; simpa using this
+
+example : dpScores [(0, 0), (1, 1), (2, 2), (5, 5), (6, 9)] 3 = [3, 4, 5, 8, 8] := by decide
 
 /-- the score counts `k` for the first match and every non-overlapping step and `1` for a diagonal continuation -/
 theorem score_counts (k : Nat) (a b : M) (r : List M) :
